@@ -387,6 +387,8 @@ func (w *World) genHistory(p HistParams) *History {
 		w.scenarioCorruptSweep(h, deliver)
 	case "stalekey":
 		w.scenarioStaleKey(h, deliver)
+	case "badfork":
+		w.scenarioBadFork(h, deliver)
 	}
 	if len(h.Ops) > 0 && h.Ops[len(h.Ops)-1].Dump == nil {
 		h.Ops[len(h.Ops)-1].Dump = w.dump(h.NUT)
@@ -679,6 +681,52 @@ func (w *World) scenarioStaleKey(h *History, deliver func(*TNode) *Op) {
 		}
 	}
 	h.Stats["scenario-stalekey"]++
+}
+
+// scenarioBadFork: an alternative branch x1-x2-x3 that outweighs the main chain m1-m2 but whose second block breaks a
+// rule that is only examined when the block is applied to the ledger (the published lottery result). x1 and x2 are
+// stored as alternative blocks; x3 makes the branch heavier, the reorganisation fails while connecting x2, and the whole
+// delivery must leave the store as it was (then the main chain goes on).
+func (w *World) scenarioBadFork(h *History, deliver func(*TNode) *Op) {
+	base := w.nodeOfTop(h.NUT)
+	if base == nil || base.Snap == nil || base.Block.Height+2 < config.HARDFORK_V3_HEIGHT {
+		return
+	}
+	mk := func(parent *TNode, wi int, corrupt string) *TNode {
+		n := w.build(parent, BlockSpec{TsDelta: 15000, Recipient: w.wallets[wi%len(w.wallets)].Addr, Corrupt: corrupt})
+		w.admit(n)
+		return n
+	}
+	m1 := mk(base, 0, "")
+	m2 := mk(m1, 1, "")
+	x1 := mk(base, 2, "")
+	if !m1.Valid || !m2.Valid || !x1.Valid {
+		return
+	}
+	x2 := mk(x1, 3, "next-delegate")
+	if x2.Valid {
+		return
+	}
+	for _, n := range []*TNode{m1, m2, x1, x2} {
+		deliver(n)
+	}
+	stored := false
+	w.view(h.NUT, func(v *View) { stored = v.Block(x2.Hash) != nil })
+	if !stored {
+		return
+	}
+	x2.Snap = h.NUT.Snapshot() // only to compute the header fields of its child
+	x3 := w.build(x2, BlockSpec{TsDelta: 15000, Recipient: w.wallets[4%len(w.wallets)].Addr})
+	w.nodes = append(w.nodes, x3)
+	w.byHash[x3.Hash] = x3
+	op := deliver(x3)
+	op.Dump = w.dump(h.NUT)
+	m3 := mk(m2, 0, "")
+	if m3.Valid {
+		op = deliver(m3)
+		op.Dump = w.dump(h.NUT)
+	}
+	h.Stats["scenario-badfork"]++
 }
 
 // scenarioCorruptSweep: every single-rule corruption of an otherwise valid block, once each, on a live chain state
